@@ -319,7 +319,7 @@ var sharedRules = map[string][]string{
 	"C02": {"C04/OPS-IMM", "C20/POS-FUSED"},
 	"C03": {"C14/REP-PRINT"},
 	"C04": {"C02/HND-AGREE", "C11/REP-RAWSLICE"},
-	"C05": {"C02/HND-AGREE"},
+	"C05": {"C02/HND-AGREE", "C06/LAY-SHAPE", "C06/LAY-TARGET"},
 	"C06": {"C07/PAR-RESIZE", "C02/PEEP-DEPTH", "C02/PEEP-SPLIT", "C02/PEEP-GLUE", "C02/PEEP-MEASURED", "C02/PEEP-BOUND", "C02/HND-AGREE"},
 	"C07": {"C06/LAY-SHAPE", "C06/LAY-TARGET", "C06/LAY-REWRITE", "C02/PEEP-MEASURED", "C02/PEEP-DEPTH", "C09/FRM-CHECKS", "C09/FRM-VARIADIC", "C09/LAY-FUNC", "C09/FRM-INVOKE"},
 	"C09": {"C02/HND-AGREE", "C07/PAR-RESIZE", "C07/FRM-PAIR", "C07/INS-PATCH"},
